@@ -29,7 +29,7 @@ CHECKS = {
             "real adaptive loop/refine): every state reachable by <=D steps with <=s intervals chosen per step, for all coarsening "
             "versions, rebalancing and boundary flags and the rarely used constructor options (dim_adaptive=False, Chebyshev points, volume weighting); 1D-list laws, per-point coefficient sums and reproduction of all nodal unit "
             "functions checked in every state.",
-            "Bounds d<=3 (incl. d=3 from (1,3), depth 2-3), D<=2..5, s<=2, domain [0,1]^d and one far from the origin; canonical form = intervals+levels+coarsening, lmax, index sets.",
+            "Bounds d<=3 (incl. d=3 from (1,3): graded depth 3, thorough also the complete depth-2 layers), D<=2..5, s<=2, domain [0,1]^d and one far from the origin; canonical form = intervals+levels+coarsening, lmax, index sets.",
             "explicit-state BFS over decision histories replayed on the real objects"),
     "C04": ("DESIGN.md 2/C04",
             "BFS over refinement histories of the dimension-wise, extend-split and cell strategies with a basis of the claimed "
